@@ -30,7 +30,9 @@ CONSTANTS N,            \* chain height bound
           RetryLimit,   \* MaxRetryCountBlockHashMismatch
           AtomicRemove, \* TRUE: nothing is scheduled between the ack and the detector's range removal
           Contents,     \* subset of {0,1}: possible contents of a new block
-          SimDepth      \* -simulate: dump the behaviour only at this depth (0: dump every transition)
+          FinLag,       \* finalization keeps at least this many blocks unfinalized (0 in exhaustive runs; biases random walks)
+          NoIdle,       \* TRUE (random walks): polls without news and ticks without tracked blocks are not scheduled
+          SimDepth      \* 0: dump one full path per transition (edge cover); > 0 (-simulate, one worker): dump step by step
 
 VARIABLES chunk, tag,                  \* configuration
           tip, fin, nforks, fp, H,     \* chain
@@ -123,7 +125,7 @@ UseFail(fl) == fails' = IF fl /\ MaxFails # 99 THEN fails + 1 ELSE fails
 
 (* WaitForNewBlocks(ctx, 0) before the loop, and inside the loop *)
 DlWait(fl) ==
-  /\ Free /\ dl.pc \in {"wait0", "wait"} /\ (fl => CanFail)
+  /\ Free /\ dl.pc \in {"wait0", "wait"} /\ (fl => CanFail) /\ (NoIdle => (fl \/ TipView > dl.last))
   /\ IF fl \/ TipView <= dl.last
      THEN dl' = dl
      ELSE IF dl.pc = "wait0"
@@ -256,7 +258,7 @@ SetRd(x) == rd' = x.r /\ mem' = x.m /\ db' = x.d
 
 (* tick: HeaderByNumber(finalized), snapshot of the tracked list *)
 RdTick(fl) ==
-  /\ Detector /\ Free /\ rd.pc = "tick" /\ (fl => CanFail)
+  /\ Detector /\ Free /\ rd.pc = "tick" /\ (fl => CanFail) /\ (NoIdle => (fl \/ \E n \in 1..N : mem[n] >= 0 /\ (n <= fin \/ mem[n] # Ver(n))))
   /\ IF fl THEN UNCHANGED <<rd, mem, db>>
      ELSE SetRd(RdRun([IdleRd EXCEPT !.rfin = fin, !.snap = Snap(mem), !.idx = 1], mem, db))
   /\ UseFail(fl)
@@ -301,7 +303,7 @@ Mine(c) ==
   /\ Log("mine", tip + 1, <<c>>, FALSE)
 
 Finalize ==
-  /\ Free /\ fin < tip /\ FinOK
+  /\ Free /\ fin < tip /\ FinOK /\ tip - fin > FinLag
   /\ fin' = fin + 1
   /\ UNCHANGED <<chunk, tag, tip, nforks, fp, H, dl, ch, drv, store, mem, db, rd, fails, pfails, restarts, lastReorg>>
   /\ Log("finalize", fin + 1, <<>>, FALSE)
@@ -311,6 +313,7 @@ Finalize ==
    it would not look again before the next block anyway); the new blocks' contents are free *)
 Fork(b, cs) ==
   /\ Free /\ nforks < MaxForks /\ b > fin /\ b <= tip /\ tip < N
+  /\ NoIdle => \E i \in 1..Len(store) : store[i].n >= b        \* random walks: only forks that replace a processed block
   /\ nforks' = nforks + 1
   /\ tip' = tip + 1
   /\ fp' = [fp EXCEPT ![nforks + 1] = b]
@@ -382,7 +385,12 @@ NoSpuriousStrict == lastReorg.rows > 0 => lastReorg.strict
 TypeOK == Len(ch) <= BufCap /\ fin <= tip /\ (dl.from >= 1 \/ dl.pc = "off")
 
 -----------------------------------------------------------------------------
-(* behaviour export: one full path per generated transition (or, under -simulate, one per walk) *)
-Dump == IF SimDepth = 0 \/ Len(hist') = SimDepth
-        THEN PrintT(<<"CASE", ToJson([chunk |-> chunk, tag |-> tag, steps |-> hist'])>>) ELSE TRUE
+(* behaviour export: one full path per generated transition (edge cover), or - under `-simulate -workers 1` - the walk
+   step by step: TLC evaluates the constraint for every candidate successor, so what is printed is the step that led to
+   the current state (w = number of the walk, k = its position), once per candidate; duplicates are dropped by the reader *)
+Dump == IF SimDepth = 0
+        THEN PrintT(<<"CASE", ToJson([chunk |-> chunk, tag |-> tag, steps |-> hist'])>>)
+        ELSE IF hist = <<>> THEN TRUE
+        ELSE PrintT(<<"STEP", ToJson([w |-> TLCGet("stats").traces, k |-> Len(hist), chunk |-> chunk, tag |-> tag,
+                                      s |-> hist[Len(hist)]])>>)
 =============================================================================
